@@ -24,7 +24,7 @@ CONSTANTS
     FormMenu,          \* subset of {"alloc", "detached"}
     DeliveryMenu(_),   \* sent -> set of delivery descriptors (see Deliver)
     ExportMenu,        \* set of <<exporter_context, L>>
-    ShotSMenu(_),      \* ctx -> set of [p, pt, aad]: single-shot seals
+    ShotSMenu(_, _),   \* ctx, shots -> set of [p, pt, aad]: single-shot seals
     ShotRMenu(_, _),   \* ctx, shots -> set of [p, d]: single-shot opens (d a delivery descriptor)
     MaxSeals, MaxOpens, MaxExports, MaxSetSeq, MaxShots,
     OvfFirstInOpen,    \* TRUE: allocating open checks the latch before the length (see D5)
@@ -395,7 +395,7 @@ Next ==
             Seal(c, pt, aad, f)
     \/ \E c \in Receivers, d \in DeliveryMenu(sent), f \in FormMenu : Open(c, d, f)
     \/ \E c \in Live, e \in ExportMenu : Export(c, e[1], e[2])
-    \/ \E m \in ShotSMenu(ctx), f \in FormMenu : SingleShotSeal(m, f)
+    \/ \E m \in ShotSMenu(ctx, shots), f \in FormMenu : SingleShotSeal(m, f)
     \/ \E m \in ShotRMenu(ctx, shots), f \in FormMenu : SingleShotOpen(m, f)
 
 Spec == Init /\ [][Next]_vars
